@@ -79,15 +79,16 @@ class Mix(Scenario):
         return sum(3 * it.down + 5 * it.up + len(it.kind) + (2 if it.init == 's' else 0) for it in self.inters) % 7
 
     def __init__(self, inters, flavour='tcp', fs=None, alts=('all',), modes=('Q',), monitors_=('delivery',),
-                 name='mix', client_kw=None, server_kw=None, policy='deliver-first', round_robin=False, slow_sender=False):
+                 name='mix', client_kw=None, server_kw=None, policy='deliver-first', round_robin=False, slow_sender=False, lazy_reverse=False):
         self.inters = inters
         self.flavour, self.fs = flavour, fs
         self.monitors = tuple(monitors_)
         self.name = name
         self.params = {'inters': [i.spec() for i in inters], 'flavour': flavour, 'fs': fs, 'alts': list(alts),
-                       'modes': list(modes), 'monitors': list(monitors_), 'policy': policy, 'round_robin': round_robin, 'slow_sender': slow_sender}
+                       'modes': list(modes), 'monitors': list(monitors_), 'policy': policy, 'round_robin': round_robin, 'slow_sender': slow_sender, 'lazy_reverse': lazy_reverse}
         self.round_robin = round_robin
         self.slow_sender = slow_sender
+        self.lazy_reverse = lazy_reverse
         self.world_kw = {'alts': alts, 'modes': modes, 'policy': policy}
         self.client_kw = client_kw or {}
         self.server_kw = server_kw or {}
@@ -95,7 +96,7 @@ class Mix(Scenario):
     @staticmethod
     def from_params(p, name='mix'):
         return Mix([Inter.from_spec(d) for d in p['inters']], p['flavour'], p['fs'], tuple(p['alts']), tuple(p['modes']),
-                   tuple(p['monitors']), name=name, policy=p.get('policy', 'deliver-first'), round_robin=p.get('round_robin', False), slow_sender=p.get('slow_sender', False))
+                   tuple(p['monitors']), name=name, policy=p.get('policy', 'deliver-first'), round_robin=p.get('round_robin', False), slow_sender=p.get('slow_sender', False), lazy_reverse=p.get('lazy_reverse', False))
 
     # ------------------------------------------------------------------------------------------------------------
     def setup(self, w):
@@ -195,6 +196,10 @@ class Mix(Scenario):
             sock = client if it.init == 'c' else server
             side = 'c0' if it.init == 'c' else 's0'
             self._requester_actor(w, it, sock, side)
+        if self.lazy_reverse and w.objs.get('lazy_subs'):
+            lazy = w.objs['lazy_subs']
+            allc = lambda w: all(g(w) for _, _, g in lazy)
+            w.add_actor('lazysub', [Step('subscribe' + tag, fn, guard=allc) for tag, fn, _ in reversed(lazy)])
         if self.round_robin:
             w.objs['rr_pending'] = True
 
@@ -398,7 +403,19 @@ class Mix(Scenario):
                     up = self._publisher(w, it, side, 'u', it.up, it.up_ending) if it.up >= 0 else None
                     sock.request_channel(it.pay('q', 0), up).initial_request_n(n0).subscribe(sub)
 
-            if it.cancel_after == -1:
+            if getattr(self, 'lazy_reverse', False) and it.cancel_after is None:
+                # the application creates its request objects first and subscribes to them later, in the REVERSE order of creation
+                # (the stream id is allocated at creation, the request frame goes out at subscribe())
+                def create(w):
+                    if it.kind == 'stream':
+                        st['lazy'] = sock.request_stream(it.pay('q', 0)).initial_request_n(n0)
+                    else:
+                        up = self._publisher(w, it, side, 'u', it.up, it.up_ending) if it.up >= 0 else None
+                        st['lazy'] = sock.request_channel(it.pay('q', 0), up).initial_request_n(n0)
+
+                steps.append(Step('create', create))
+                w.objs.setdefault('lazy_subs', []).append((it.tag, lambda w: st['lazy'].subscribe(sub), lambda w: 'lazy' in st))
+            elif it.cancel_after == -1:
                 def go_and_note(w, go=go):
                     st['cancel_log'] = len(w.log)
                     st['pending_at_cancel'] = True
